@@ -190,7 +190,8 @@ let rec goval_of_sx (x : sx) : E.goval =
            fields)
   | L [ A "ptr"; v ] -> E.GPtr (goval_of_sx v)
   | L (A "nilptr" :: _) -> E.GNilPtr
-  | L (A ("chan" | "func" | "nilchan" | "nilfunc" | "complex" | "array2" | "imap") :: _) -> E.GOther
+  | L (A "shared" :: _) -> goval_of_sx (parse_sx "(slice (ptr (int 5)) (ptr (int 5)) (map (70 (ptr (int 5)))))")
+  | L (A ("chan" | "func" | "nilchan" | "nilfunc" | "complex" | "array2" | "imap" | "cyc" | "cycmap" | "cycslice" | "cyc2") :: _) -> E.GOther
   | _ -> failwith "unknown data value"
 
 and kv_of_sx = function
@@ -242,6 +243,7 @@ let data_of_sx (x : sx) : (E.bytes * E.goval) list =
 let fnid_of = function
   | "id" -> E.F_id | "const" -> E.F_const | "const2" -> E.F_const2 | "echo" -> E.F_echo
   | "args" -> E.F_args | "nargs" -> E.F_nargs | "not" -> E.F_not | "revip" -> E.F_revip
+  | "unsup" | "unsup2" -> E.F_nargs   (* on an array receiver the model has no answer for these: the call is unmodelled *)
   | s -> failwith ("fnid " ^ s)
 
 let type_of_short = function
